@@ -84,13 +84,14 @@ var checks = map[string]check{
 		Assume: []string{"an optional field with a declared default that holds the default is the same value as an unset one (the property says so); nil and empty containers are the same for non-optional fields", "struct names are unique program-wide, so a Go type is matched to its IDL struct by the name its own Write passes to WriteStructBegin", "programs the compiler rejects or whose output does not compile are counted (status classes) and left to C01/C04"},
 	},
 	"C15": {
-		ID: "C15", Pkg: "c15",
+		ID: "C15", Pkg: "c15", NeedBin: true, MaxPar: 8,
 		Jobs: []job{
 			{Run: "^TestDescriptors$", Quick: 600, QShards: 8, Thor: 6000, TShards: 14},
 			{Run: "^TestCodec$", Quick: 150, QShards: 6, Thor: 1500, TShards: 14},
+			{Run: "^TestGenerated$", Quick: 2, QShards: 6, Thor: 25, TShards: 14},
 		},
-		Rule:   "multi-file IDL models (annotations with repeated keys, comments, constants of every shape, typedef chains across files, same base names) parsed and resolved by the real front end; GetFileDescriptor compared field by field with a descriptor content computed from the model alone; lookups by name/id across includes after RegisterAST; Marshal/Unmarshal identity; non-trivial = >=2 files, repeated annotation keys and a typedef chain crossing files, distinct by program text",
-		Assume: []string{"representation details descriptor.thrift leaves open (comment markers, requiredness letter case, 'void' response type) are compared by content only", "map constants are compared as unordered entry sets", "the generated-code half (descriptors reachable from compiled packages) is not covered by this job"},
+		Rule:   "multi-file IDL models (annotations with repeated keys, comments, constants of every shape, typedef chains across files, same base names) parsed and resolved by the real front end; GetFileDescriptor compared field by field with a descriptor content computed from the model alone; lookups by name/id across includes after RegisterAST; Marshal/Unmarshal identity; generated half: one rapid case = one 2-3 file program generated with go:with_reflection (+0-2 presentation options), compiled with the reflective driver: embedded file descriptors, Go type <-> descriptor identity, lookups across packages through the run-time registry; non-trivial = >=2 files, repeated annotation keys and a typedef chain crossing files (in-process), or >=2 generated packages and >=1 cross-file reference followed through the run-time registry (generated), distinct by program text",
+		Assume: []string{"representation details descriptor.thrift leaves open (comment markers, requiredness letter case, 'void' response type) are compared by content only", "map constants are compared as unordered entry sets", "reorder_fields and typed_enum_string are not drawn in the generated half (the descriptor follows the Go field order by design; String() identifies enum types)"},
 	},
 	"C01": {
 		ID: "C01", Pkg: "c01", NeedBin: true, MaxPar: 12,
@@ -183,5 +184,14 @@ var checks = map[string]check{
 		},
 		Rule:   "IDL models with services (void/value/oneway, 0-6 args, 0-3 throws incl. typedef'd exceptions, extends local / across files / same Go package, names that are Go keywords or generated identifiers) x 20-50 call sequences of 1-8 calls on one connection through generated client -> loop-back transport -> generated processor with a recording handler synthesised from the generated interface; handler args, caller result/exception/application exception, raw request and reply messages judged by the reference codec; non-trivial = service has a base or >=1 throws and the sequence mixes >=2 outcome kinds, distinct by program+service+calls",
 		Assume: []string{"the IDL method <-> Go method correspondence is learnt by behaviour (the name the generated client puts on the wire)", "a oneway request may be typed CALL or ONEWAY (apache's TStandardClient sends CALL); only the absence of a reply is asserted", "constants are switched off so that programs C01/C06 findings would reject do not occur"},
+	},
+	"C09": {
+		ID: "C09", Pkg: "c09", NeedBin: true, MaxPar: 8,
+		Jobs: []job{
+			{Run: "^TestRuntime$", Quick: 3000, QShards: 8, Thor: 60000, TShards: 14},
+			{Run: "^TestEvolve$", Quick: 2, QShards: 8, Thor: 30, TShards: 14},
+		},
+		Rule:   "layer A (in-process): one unknown field of any Thrift type from a recursive generator (all wire types, nesting up to and beyond the documented depth limit) through unknown.Fields Append/Write must come back byte-exactly, beyond the limit the documented error; layer B: pairs (old, new) where old is derived from a generated new by removing optional/default fields at any depth, enum members and union members, generated as go (new) and go / go:keep_unknown_fields (old), built into three drivers; values of new travel along chains old->new->old up to length 3; non-trivial = the removed set contains a container- or struct-typed field below the top level (B), or a nested unknown field of depth >= 3 (A)",
+		Assume: []string{"old may lack only non-required fields, enum members and union members that no constant or default mentions", "the carrying-unknown-fields flag is asserted for the top-level object only", "depth 65 may go either way (the documentation does not say whether the outermost value counts)"},
 	},
 }
